@@ -460,6 +460,11 @@ func (h *hist) submit(x *genTx, path string) int {
 		hexs = fmt.Sprintf("big:%d:%s...", len(x.raw), hexs[:200])
 	}
 	h.note("submit %s family=%s path=%s raw=%s", x.id, x.family, path, hexs)
+	if x.badScript {
+		// the trusted and the local path do not verify scripts by design (the submitter vouches for
+		// them); transactions whose script fails by construction only ever arrive from the untrusted path
+		path = "net"
+	}
 	h.lastSub = x
 	h.enter("submit " + path + " " + x.family)
 	defer h.leave()
